@@ -186,7 +186,7 @@ def run(ctx):
             lo = G.snap(rnd.uniform(-10, 5), 1)
             hi = G.snap(lo + rnd.choice([1.0, 2.5, 10.0, 0.5, 100.0]), 1)
             spec = G.shape_term(rnd, "t", lo, hi, kind=kind, d=rnd.choice([1, 3, 6]), degenerate=False, free_height=True)
-            term = G.build_term(fl, spec)
+            term = G.build_term(fl, spec, route=rnd.choice(["constructor", "factory"]))
             ys = y_values(rnd, spec["height"])
             form = i // len(kinds) % 3
             try:
